@@ -83,7 +83,7 @@ ASSUMPTIONS = [
     "pandas defines min/max/ordering of index values; partitions are what to_delayed()/partitions[i] compute",
     "dask.dataframe is imported through the pyarrow import stub (pandas-backed strings)",
 ]
-BUDGET = {"quick": 60, "thorough": 540}
+BUDGET = {"quick": 90, "thorough": 600}
 FLOORS = {
     "quick": {"evaluations": 1600, "distinct_nontrivial": 1150,
               "counters": {"stages": 5500, "stages_known_divisions": 4800, "partitions_checked": 11500,
